@@ -217,9 +217,9 @@ class BinarySearchTreeAdapted(Sampling):
         ):
             if self._is_axis[bucket_position]:
                 # find the position of the state
-                state_ith_pos = np.searchsorted(
-                    self._precomputed_cum_p_for_axes[bucket_position], prob
-                )
+                cum_p = self._precomputed_cum_p_for_axes[bucket_position]
+                # the residual can exceed the last cumulative sum by a rounding error: stay on the last state of the axis
+                state_ith_pos = min(np.searchsorted(cum_p, prob), len(cum_p) - 1)
                 a_c, b_c = list(zip(*these_bucket_coordinates))
                 state = tuple(
                     l if l == r else l + state_ith_pos for l, r in zip(a_c, b_c)
